@@ -43,13 +43,13 @@ def master_equation(G, nodes, tau, gamma, ew, nw, infs, recs, times):
 
 def trees(ctx):
     import EoN
-    for k in range(ctx.scale(10, 150)):
+    for k in range(ctx.scale(60, 300)):
         n = ctx.rng.randint(2, ctx.scale(5, 6))
         G = nx.Graph()
         G.add_nodes_from(range(n))
         for i in range(1, n):
             G.add_edge(ctx.rng.randrange(i), i)
-        weighted = ctx.rng.random() < 0.5
+        weighted = ctx.rng.random() < 0.65
         kw = {}
         if weighted:
             for u, v in G.edges():
@@ -58,7 +58,7 @@ def trees(ctx):
                 G.nodes[u]["r"] = ctx.rng.choice([0.5, 1.0, 2.0])
             kw = dict(transmission_weight="w", recovery_weight="r")
         nodes = list(G)
-        infs = ctx.rng.sample(nodes, ctx.rng.randint(1, min(2, n)))
+        infs = ctx.rng.sample(nodes, ctx.rng.randint(1, min(3, n)))       # several seeds: a susceptible node flanked by infectious ones
         rest = [u for u in nodes if u not in infs]
         recs = ctx.rng.sample(rest, 1) if (rest and ctx.rng.random() < 0.3) else []
         tau, gamma = ctx.rng.choice([(1.0, 1.0), (2.0, 0.5), (0.5, 1.0)])
